@@ -80,6 +80,8 @@ def check_property(ctx, spec, model, kind, data, dump_kw, relabelled=False, whic
     if not bad:
         return
     ic = input_class(spec, dump_kw)
+    if any('bounds' in x[2] for x in bad) and spec.get('vartypes'):
+        ic = f"{spec['kind']}: {bounds_class(spec)}"        # the field that differs is not in the header: name the class of bounds
     if len(bad) == len(results) and len(set(x[2] for x in bad)) == 1:
         # every entry point fails the same way: one finding, reported at the writer/loader pair
         name, expr, what = bad[0]
@@ -124,6 +126,32 @@ def label_class(labels):
     return 'int labels'
 
 
+def bounds_class(spec):
+    """the most unusual kind of variable bounds in a QM / CQM spec (round 8: fields the header does not cover)"""
+    cl = set()
+    reb = {i for i, _, _ in spec.get('rebounds', [])}
+    for i, (vt, lb, ub) in enumerate(spec['vartypes']):
+        if vt not in ('INTEGER', 'REAL'):
+            continue
+        if i in reb:
+            cl.add('bounds changed by set_lower_bound / set_upper_bound')
+        if lb is None or ub is None:
+            cl.add('a bound left to its default')
+        vals = [x for x in (lb, ub) if x is not None]
+        if vt == 'INTEGER' and any(x != int(x) for x in vals):
+            cl.add('INTEGER variable with non-integral bounds')
+        elif any(abs(x) >= 2 ** 24 - 1 for x in vals):
+            cl.add(f'{vt} variable with a bound at the edge of the supported range')
+        elif vt == 'REAL' and (lb == ub or any(x < 0 for x in vals)):
+            cl.add('REAL variable with negative or equal bounds')
+    for c in ('INTEGER variable with non-integral bounds', 'bounds changed by set_lower_bound / set_upper_bound',
+              'INTEGER variable with a bound at the edge of the supported range', 'REAL variable with a bound at the edge of the supported range',
+              'a bound left to its default', 'REAL variable with negative or equal bounds'):
+        if c in cl:
+            return c
+    return 'plain bounds'
+
+
 def input_class(spec, dump_kw):
     if spec['kind'] == 'cqm':
         c = label_class([c['label'] for c in spec['constraints']] + [d['label'] for d in spec['discrete']])
@@ -151,6 +179,26 @@ def bqm_case(ctx, r, B, spec):
             ctx.case(('bqm', repr(spec), kw), nontrivial=True,
                      sample=dict(kind='bqm', options=kw, source=F.emit(spec), nbytes=len(data)) if r.random() < .02 else None)
             ctx.tick(f'bqm v{ver} ' + ('ignore_labels' if ign else 'labels'))
+            if r.random() < .35:
+                # round 8 (anchor coverage): the deprecated public entry point `fileview.FileView` and `readinto` of the file
+                # object `to_file` returns must give the very bytes of `to_file`
+                import warnings
+                from dimod.serialization.fileview import FileView
+                with warnings.catch_warnings():
+                    warnings.simplefilter('ignore')
+                    fvd = FileView(m0, version=ver, ignore_labels=ign)
+                buf, got = bytearray(max(1, len(data) // 3 + 1)), b''
+                while True:
+                    nread = fvd.readinto(buf)
+                    if not nread:
+                        break
+                    got += bytes(buf[:nread])
+                ctx.tick('bqm FileView + readinto')
+                if got != data or not (fvd.readable() and fvd.seekable()):
+                    ctx.fail('property', 'fileview.FileView', f'bqm v{ver} readinto', 'FileView(bqm) read through readinto does not give the bytes of to_file',
+                             repro=F.PRELUDE + F.emit(spec) + "import warnings\nfrom dimod.serialization.fileview import FileView\n"
+                             f"with warnings.catch_warnings():\n    warnings.simplefilter('ignore')\n    f = FileView(m, version={ver}, ignore_labels={ign})\n"
+                             f"buf = bytearray(1 << 20)\nn = f.readinto(buf)\nassert bytes(buf[:n]) == m.to_file({kw}).read()\n")
             check_property(ctx, spec, m0, 'bqm', data, kw, relabelled=ign,
                            which=None if r.random() < .25 else ['from_file(bytes)', 'fileview.load(BytesIO)'])
             # (i) correspondence
@@ -201,6 +249,7 @@ def qm_case(ctx, r, B, spec):
     ctx.case(('qm', repr(spec)), nontrivial=True,
              sample=dict(kind='qm', source=F.emit(spec), nbytes=len(data)) if r.random() < .03 else None)
     ctx.tick('qm ' + ('labelled' if list(m.variables) != list(range(n)) else 'range'))
+    ctx.tick(f'qm bounds: {bounds_class(spec)} ({spec["dtype"]})')
     check_property(ctx, spec, m, 'qm', data, kw, which=None if r.random() < .25 else ['from_file(bytes)', 'fileview.load(BytesIO)'])
     pre, fver, text, hend = F.split_header(data)
     hv = json.loads(text)
@@ -262,6 +311,10 @@ def wire_constraint_loaded(lstr, comp, variables):
 def cqm_case(ctx, r, B, spec):
     m = F.build(spec)
     variables = list(m.variables)
+    ctx.tick(f'cqm bounds: {bounds_class(spec)}')
+    for c in spec['constraints']:
+        if c['soft'] is not None:
+            ctx.tick(f"cqm soft constraint: weight {'dyadic' if c['soft'][0] in (0.5, 2.0, 3.25) else 'unusual'}, penalty {c['soft'][1]}")
     for compress in (False, True):
         kw = f'compress={compress}'
         try:
@@ -296,6 +349,10 @@ def cqm_case(ctx, r, B, spec):
               'header JSON text', rp)
         B.add(f'parsecnt cqm {F.hx(text)}', cqm_counts(hv), 'read_header + header use vs parseCqmHeader', ic, 'header counts parsed from the text', rp)
         eocd_case(ctx, B, data, 'ConstrainedQuadraticModel.from_file', ic, rp)
+        # round 8: the two side conditions of C10.truncation_safe_cqm_tiled that concern names, not payload, on every file:
+        # the aligned header holds no end-record signature, the last member's name holds no byte 0x06
+        ctx.tick('C10.truncation_safe_cqm_tiled side conditions (header without PK\\x05\\x06, last member name without 0x06): ' +
+                 ('hold' if SIG not in data[:hend] and members and 6 not in members[-1][0].encode() else 'DO NOT HOLD'))
         zip_case(ctx, B, data, hend, 'ConstrainedQuadraticModel.to_file', ic, rp)
         is_range = variables == list(range(len(variables)))
         lt = 'none' if is_range else F.hx(json.dumps(m.variables.to_serializable()).encode())
@@ -786,6 +843,11 @@ def zip_case(ctx, B, data, start, site, ic, rp, base=None):
     # position of the BIAS payload for the npz blob of a DQM file (which np.load is handed on its own: negative `concat`)
     B.add(f'zipwrite {start if base is None else base} {";".join(ents)}', F.hx(arch), f'zipfile (writer) vs zipBytes [{site}]', ic,
           'archive bytes: local headers, central directory, end record', rp)
+    if ents:
+        # round 8: the side condition of `C10.local_header_check_accepts_written` on every generated archive: each local header
+        # records the size of its data (directly, or 0xFFFFFFFF + zip64 extra for the members written with force_zip64=True)
+        B.add(f'ziplocalok {";".join(ents)}', ','.join('1' for _ in ents), f'zipfile (writer) vs ZEntry.LocalOK [{site}]', ic,
+              'local headers record the size of the stored bytes', rp)
     B.add(f'zipread {F.hx(data)} {oracle}', ','.join(F.hx(n) + '=' + F.hx(c) for n, c in members) or '-',
           f'zipfile (reader) vs readDirBytes [{site}]', ic, 'members read from the whole file', rp)
 
